@@ -199,10 +199,13 @@ def check_triple(ra, a, b, c, bad):
   def v(kind, extra=''):
     bad.append(dict(sig=kind + '3', what='%s: %r %r %r -> %r model=%r %s' % (kind, a, b, c, sorted(results, key=str), m, extra),
                     case=dict(kind='triple', a=a, b=b, c=c)))
-  for i, j, k in itertools.permutations([0, 1, 2]):
+  for (i, j, k), star in itertools.product(itertools.permutations([0, 1, 2]), (False, True)):
     refs = [mk(ra, a), mk(ra, b), mk(ra, c)]
     try:
-      ra.Unify(refs[i], refs[j]); ra.Unify(refs[j], refs[k])
+      # chain: (i,j) then (j,k); star: (i,j) then (i,k) - the already unified side is the first argument again
+      ra.Unify(refs[i], refs[j])
+      if star: ra.Unify(refs[i], refs[k])
+      else: ra.Unify(refs[j], refs[k])
     except Exception as e:
       bad.append(dict(sig='exception3:' + type(e).__name__, what='triple %r %r %r order %r' % (a, b, c, (i, j, k)),
                       case=dict(kind='triple', a=a, b=b, c=c))); continue
@@ -210,8 +213,9 @@ def check_triple(ra, a, b, c, bad):
     if m is None:
       # Nothing is asserted after the first clash (the property restricts order independence to clash-free
       # sets): only an order whose first step is clash-free must report the clash of its second step.
-      if meet(terms[i], terms[j]) is not None and o[j] != 'CLASH' and o[k] != 'CLASH':
-        v('missed_clash', 'order=%r got=%r' % ((i, j, k), o))
+      first = i if star else j
+      if meet(terms[i], terms[j]) is not None and o[first] != 'CLASH' and o[k] != 'CLASH':
+        v('missed_clash', 'order=%r star=%r got=%r' % ((i, j, k), star, o))
     else:
       results.add(o)
   if m is not None:
@@ -332,7 +336,7 @@ def coverage(ctx, merged):
     evaluations=states, distinct_nontrivial=s.get('proper_meets', 0) + s.get('model_clashes', 0),
     rule='state = one ordered pair / triple / aliased pair of type terms (all of them, no sampling); transition = one Unify call; '
          'non-trivial = the model meet is a clash or differs from both inputs',
-    terms=s.get('terms', 0), pairs=s.get('pairs', 0), triples=s.get('triples', 0), triple_orders=6, core_terms=s.get('core_terms', 0),
+    terms=s.get('terms', 0), pairs=s.get('pairs', 0), triples=s.get('triples', 0), triple_orders=12, core_terms=s.get('core_terms', 0),
     model_clashes=s.get('model_clashes', 0), proper_meets=s.get('proper_meets', 0),
     bounds=dict(depth=3 if ctx.thorough else 1, fields=['a', 'b', 0], atoms=ATOMS), cap_hit=False)
 
